@@ -504,19 +504,32 @@ def _eval_promoted(p):
     return env.get(0)
 
 
+def _first_field(place):
+    """name (or index) of the first field projection of a place, None if the whole local is meant"""
+    for e in place[1:]:
+        if isinstance(e, list) and e[0] == "f":
+            return e[2] if e[2] is not None else str(e[1])
+        if isinstance(e, list) and e[0] == "d":
+            continue
+    return None
+
+
 def backward_slice(body, place, limit=600):
     """Backward data-dependence closure of a place, following every operand of every definition (for calls: all
-    arguments) and writes through `&mut` borrows handed to calls. Returns dict with
+    arguments) and writes through `&mut` borrows handed to calls. Field-sensitive at the first projection level for
+    by-reference ARGUMENTS (`(*self).inner` and `(*self).path` are different objects: a call that receives
+    `&mut self.inner` is not a writer of `self.path`). Returns dict with
     'calls': {callee path}, 'args': {arg index}, 'fields': {field names}, 'consts': [values], 'locals': {locals}"""
     calls, args, fields, consts = set(), set(), set(), []
     call_sites = set()
     seen = set()
-    work = [place[0]]
+    seen_locals = set()
+    work = [(place[0], _first_field(place))]
     for e in place[1:]:
         if isinstance(e, list) and e[0] == "f" and e[2]:
             fields.add(e[2])
     n = 0
-    # index: local -> calls that receive `&mut local` (possible writers)
+    # index: local -> calls that receive `&mut local[.field]` (possible writers), with the borrowed first field
     mut_writers = {}
     for bb, t in body.calls():
         for ai, a in enumerate(t["args"]):
@@ -525,18 +538,27 @@ def backward_slice(body, place, limit=600):
                 continue
             for d in body.defs().get(l, []):
                 if d[0] == "stmt" and d[4][0] == "refmut":
-                    mut_writers.setdefault(d[4][1][0], []).append((bb, t, ai))
+                    mut_writers.setdefault(d[4][1][0], []).append((bb, t, ai, _first_field(d[4][1])))
+
+    def is_ref_arg(l):
+        return 1 <= l <= body.argc and body.locals[l].startswith("&")
+
     while work and n < limit:
-        l = work.pop()
-        if l in seen:
+        l, ff = work.pop()
+        if not is_ref_arg(l):
+            ff = None               # only arguments behind a reference are split by field
+        if (l, ff) in seen or (l, None) in seen:
             continue
-        seen.add(l)
+        seen.add((l, ff))
+        seen_locals.add(l)
         n += 1
         if 1 <= l <= body.argc:
             args.add(l)
         for d in body.defs().get(l, []):
             ops = []
             if d[0] == "stmt":
+                if ff is not None and len(d[3]) > 1 and _first_field(d[3]) not in (None, ff):
+                    continue        # a store into another field of the argument
                 rv = d[4]
                 k = rv[0]
                 if k == "use":
@@ -569,17 +591,19 @@ def backward_slice(body, place, limit=600):
                     if isinstance(e, list) and e[0] == "f" and e[2]:
                         fields.add(e[2])
                     if isinstance(e, list) and e[0] == "i":
-                        work.append(e[1])
-                work.append(p[0])
-        for (bb, t, ai) in mut_writers.get(l, []):
+                        work.append((e[1], None))
+                work.append((p[0], _first_field(p)))
+        for (bb, t, ai, wf) in mut_writers.get(l, []):
+            if ff is not None and wf is not None and wf != ff:
+                continue            # `&mut self.other_field` cannot write the field that is read
             if "callee" in t:
                 calls.add(callee(t))
             call_sites.add(bb)
             for o in t["args"]:
                 p = op_place(o)
                 if p is not None:
-                    work.append(p[0])
-    return {"calls": calls, "args": args, "fields": fields, "consts": consts, "locals": seen, "call_sites": call_sites}
+                    work.append((p[0], _first_field(p)))
+    return {"calls": calls, "args": args, "fields": fields, "consts": consts, "locals": seen_locals, "call_sites": call_sites}
 
 
 def base_local(body, place, through=None, depth=0):
